@@ -124,6 +124,17 @@ M = [
  ("NEUTRAL-lair-bond-validations-reordered", "C09", L+"whale_lair/src/commands.rs", '    helpers::validate_funds(&deps, &info, &asset, denom.clone())?;\n    helpers::validate_claimed(&deps, &info)?;\n    helpers::validate_bonding_for_current_epoch(&deps, &env)?;', '    helpers::validate_bonding_for_current_epoch(&deps, &env)?;\n    helpers::validate_claimed(&deps, &info)?;\n    helpers::validate_funds(&deps, &info, &asset, denom.clone())?;', False),
  ("NEUTRAL-lair-bond-validations-reordered-C08", "C08", L+"whale_lair/src/commands.rs", '    helpers::validate_funds(&deps, &info, &asset, denom.clone())?;\n    helpers::validate_claimed(&deps, &info)?;\n    helpers::validate_bonding_for_current_epoch(&deps, &env)?;', '    helpers::validate_bonding_for_current_epoch(&deps, &env)?;\n    helpers::validate_claimed(&deps, &info)?;\n    helpers::validate_funds(&deps, &info, &asset, denom.clone())?;', False),
  ("NEUTRAL-incentive-migration-no-clone", "C12", PN+"incentive/src/migrations.rs", 'claimed_amount: f.clone().claimed_amount,', 'claimed_amount: f.claimed_amount,', False),
+ ("NEUTRAL-pair-swap-extra-attribute-C01", "C01", PN+"terraswap_pair/src/commands.rs", '    Ok(Response::new().add_messages(messages).add_attributes(vec![\n        ("action", "swap"),', '    let wwv_note = format!("{}", messages.len());\n    Ok(Response::new().add_messages(messages).add_attribute("n_messages", wwv_note).add_attributes(vec![\n        ("action", "swap"),', False),
+ ("NEUTRAL-pair-swap-extra-attribute-C02", "C02", PN+"terraswap_pair/src/commands.rs", '    Ok(Response::new().add_messages(messages).add_attributes(vec![\n        ("action", "swap"),', '    let wwv_note = format!("{}", messages.len());\n    Ok(Response::new().add_messages(messages).add_attribute("n_messages", wwv_note).add_attributes(vec![\n        ("action", "swap"),', False),
+ ("NEUTRAL-pair-swap-extra-attribute-C07", "C07", PN+"terraswap_pair/src/commands.rs", '    Ok(Response::new().add_messages(messages).add_attributes(vec![\n        ("action", "swap"),', '    let wwv_note = format!("{}", messages.len());\n    Ok(Response::new().add_messages(messages).add_attribute("n_messages", wwv_note).add_attributes(vec![\n        ("action", "swap"),', False),
+ ("NEUTRAL-pair-swap-extra-attribute-C14", "C14", PN+"terraswap_pair/src/commands.rs", '    Ok(Response::new().add_messages(messages).add_attributes(vec![\n        ("action", "swap"),', '    let wwv_note = format!("{}", messages.len());\n    Ok(Response::new().add_messages(messages).add_attribute("n_messages", wwv_note).add_attributes(vec![\n        ("action", "swap"),', False),
+ ("NEUTRAL-pair-swap-extra-attribute-C15", "C15", PN+"terraswap_pair/src/commands.rs", '    Ok(Response::new().add_messages(messages).add_attributes(vec![\n        ("action", "swap"),', '    let wwv_note = format!("{}", messages.len());\n    Ok(Response::new().add_messages(messages).add_attribute("n_messages", wwv_note).add_attributes(vec![\n        ("action", "swap"),', False),
+ ("NEUTRAL-pair-swap-extra-attribute-C17", "C17", PN+"terraswap_pair/src/commands.rs", '    Ok(Response::new().add_messages(messages).add_attributes(vec![\n        ("action", "swap"),', '    let wwv_note = format!("{}", messages.len());\n    Ok(Response::new().add_messages(messages).add_attribute("n_messages", wwv_note).add_attributes(vec![\n        ("action", "swap"),', False),
+ ("NEUTRAL-pair-swap-extra-attribute-C16", "C16", PN+"terraswap_pair/src/commands.rs", '    Ok(Response::new().add_messages(messages).add_attributes(vec![\n        ("action", "swap"),', '    let wwv_note = format!("{}", messages.len());\n    Ok(Response::new().add_messages(messages).add_attribute("n_messages", wwv_note).add_attributes(vec![\n        ("action", "swap"),', False),
+ ("NEUTRAL-pair-swap-fee-deduction-rebound-C01", "C01", PN+"terraswap_pair/src/commands.rs", '            let protocol_fee =\n                get_protocol_fee_for_asset(collected_protocol_fees.clone(), pool.clone().get_id());\n            pool.amount = pool.amount.checked_sub(protocol_fee)?;\n\n            if pool.info.equal(&offer_asset.info) {', '            let pool_id = pool.clone().get_id();\n            let protocol_fee = get_protocol_fee_for_asset(collected_protocol_fees.clone(), pool_id);\n            let net = pool.amount.checked_sub(protocol_fee)?;\n            pool.amount = net;\n\n            if pool.info.equal(&offer_asset.info) {', False),
+ ("NEUTRAL-pair-swap-fee-deduction-rebound-C02", "C02", PN+"terraswap_pair/src/commands.rs", '            let protocol_fee =\n                get_protocol_fee_for_asset(collected_protocol_fees.clone(), pool.clone().get_id());\n            pool.amount = pool.amount.checked_sub(protocol_fee)?;\n\n            if pool.info.equal(&offer_asset.info) {', '            let pool_id = pool.clone().get_id();\n            let protocol_fee = get_protocol_fee_for_asset(collected_protocol_fees.clone(), pool_id);\n            let net = pool.amount.checked_sub(protocol_fee)?;\n            pool.amount = net;\n\n            if pool.info.equal(&offer_asset.info) {', False),
+ ("NEUTRAL-pair-swap-fee-deduction-rebound-C07", "C07", PN+"terraswap_pair/src/commands.rs", '            let protocol_fee =\n                get_protocol_fee_for_asset(collected_protocol_fees.clone(), pool.clone().get_id());\n            pool.amount = pool.amount.checked_sub(protocol_fee)?;\n\n            if pool.info.equal(&offer_asset.info) {', '            let pool_id = pool.clone().get_id();\n            let protocol_fee = get_protocol_fee_for_asset(collected_protocol_fees.clone(), pool_id);\n            let net = pool.amount.checked_sub(protocol_fee)?;\n            pool.amount = net;\n\n            if pool.info.equal(&offer_asset.info) {', False),
+ ("NEUTRAL-pair-swap-fee-deduction-rebound-C14", "C14", PN+"terraswap_pair/src/commands.rs", '            let protocol_fee =\n                get_protocol_fee_for_asset(collected_protocol_fees.clone(), pool.clone().get_id());\n            pool.amount = pool.amount.checked_sub(protocol_fee)?;\n\n            if pool.info.equal(&offer_asset.info) {', '            let pool_id = pool.clone().get_id();\n            let protocol_fee = get_protocol_fee_for_asset(collected_protocol_fees.clone(), pool_id);\n            let net = pool.amount.checked_sub(protocol_fee)?;\n            pool.amount = net;\n\n            if pool.info.equal(&offer_asset.info) {', False),
  # neutral edits: must stay silent
  ("NEUTRAL-trio-owner-check-extracted", "C16", PN+"stableswap_3pool/src/commands.rs",
   '    let mut config: Config = CONFIG.load(deps.storage)?;\n    if deps.api.addr_validate(info.sender.as_str())? != config.owner {\n        return Err(ContractError::Std(StdError::generic_err("unauthorized")));\n    }\n\n    if let Some(owner) = owner {\n        // validate address format',
